@@ -6,6 +6,7 @@
 #include <vector>
 #include <deque>
 #include <iostream>
+#include <sstream>
 #include "givinteger.h"
 #include "givrational.h"
 #include "modular.h"
@@ -59,7 +60,13 @@ template<class D, class E> void c16_ring_ops(const D& F, E& r, const E& a, const
     F.characteristic(); F.cardinality(); F.write(std::cout, a); F.write(std::cout);
 }
 
+// in-place re-parameterisation members (instantiated only when used)
+template<class D> void c16_mutators(D& F) { std::istringstream is("(z, 7)"); F.read(is); }
+
 void c16_uses() {
+    { Modular<int32_t> a(7); c16_mutators(a); } { Modular<uint32_t> a(7); c16_mutators(a); } { Modular<int64_t> a(7); c16_mutators(a); }
+    { Modular<uint64_t> a(7); c16_mutators(a); } { Modular<float> a(7); c16_mutators(a); } { Modular<double> a(7); c16_mutators(a); }
+    { Modular<Integer> a(7); c16_mutators(a); } { Modular<Log16> a(7); c16_mutators(a); } { GFqDom<int64_t> a(3, 2); c16_mutators(a); }
     { Modular<int32_t> a(7), b(11); c16_special(a, b); int32_t r = 0; c16_ring_ops(a, r, r, r); }
     { Modular<uint32_t> a(7), b(11); c16_special(a, b); uint32_t r = 0; c16_ring_ops(a, r, r, r); }
     { Modular<int64_t> a(7), b(11); c16_special(a, b); int64_t r = 0; c16_ring_ops(a, r, r, r); }
